@@ -13,11 +13,12 @@ pub fn data_len(w: u32, h: u32) -> usize {
 
 pub fn total_len(w: u32, h: u32) -> usize {
     let d = data_len(w, h);
-    let mut t = 0;
-    while t < d {
-        t += 16;
+    // next multiple of 16 (closed form: the dimensions may be astronomically large)
+    if d % 16 == 0 {
+        d
+    } else {
+        d + (16 - d % 16)
     }
-    t
 }
 
 /// (byte index, bit index) of pixel (x, y) on a page of height h
